@@ -479,8 +479,8 @@ member (the only one / the first one) is run again on the value itself.
 
 `visD ds exro s v = none` — rejected; `some v'` — accepted, `v'` is the value afterwards. Structural recursion
 over the schema (an injected default comes out of the schema, not out of the value). The partial mutations of a
-*failing* visit are never seen — except below `not` (where the failing visit is the good case): defaults below
-`not` are outside this model (`dfltUnderNot`, `unmodelled`). -/
+*failing* visit are never seen: oneOf/anyOf candidates and — since repair 197d46a — the schema below `not` are
+tried on a private deep copy. -/
 
 def guardV (b : Bool) (v : V) : Option V := if b then some v else none
 
@@ -704,24 +704,6 @@ def hasDfltO : Option RS → Bool
 def hasDfltL : List RS → Bool
   | [] => false
   | s :: r => hasDflt s || hasDfltL r
-end
-
-mutual
-/-- a `default` occurs below a `not` (outside the model of `visD`: the partial mutations of the failing visit
-below `not` stay in the value) -/
-def dfltUnderNot : RS → Bool
-  | .mk _ _ _ _ _ _ props _ _ items nt oneOf anyOf allOf _ =>
-    hasDfltO nt || dfltUnderNotP props || dfltUnderNotO items || dfltUnderNotO nt || dfltUnderNotL oneOf ||
-    dfltUnderNotL anyOf || dfltUnderNotL allOf
-def dfltUnderNotP : List (Str × RS) → Bool
-  | [] => false
-  | (_, p) :: r => dfltUnderNot p || dfltUnderNotP r
-def dfltUnderNotO : Option RS → Bool
-  | none => false
-  | some s => dfltUnderNot s
-def dfltUnderNotL : List RS → Bool
-  | [] => false
-  | s :: r => dfltUnderNot s || dfltUnderNotL r
 end
 
 mutual
@@ -1292,7 +1274,6 @@ set the body is re-encoded for the next handler — only if an encoder is regist
 fail): the verdict does not depend on it any more. -/
 def validateValue (exro ds : Bool) (s : RS) (v : V) : Outcome :=
   if !ds then (if visit exro s v then .ok else .schemaErr)
-  else if dfltUnderNot s then .unmodelled
   else match visD true exro s v with
     | none => .schemaErr
     | some _ => .ok
